@@ -44,17 +44,17 @@ func r05ErrorEncoder(c *an.Ctx) {
 		var whArg string
 		for j, cl := range p.CallEffects() {
 			switch {
-			case cl == "dyn:free:encoder(p0, p1)":
+			case cl == "dyn:free:⟨outer.p0⟩(p0, p1)":
 				enc = j
-			case cl == "dyn:free:formatter(p0, p2)":
+			case cl == "dyn:free:⟨outer.p1*⟩(p0, p2)":
 				fm = j
 			case strings.HasPrefix(cl, "p1.WriteHeader("):
 				wh = j
 				nWH++
 				whArg = strings.TrimSuffix(strings.TrimPrefix(cl, "p1.WriteHeader("), ")")
-			case strings.HasPrefix(cl, "dyn:free:encoder(p0, p1).Encode("):
+			case strings.HasPrefix(cl, "dyn:free:⟨outer.p0⟩(p0, p1).Encode("):
 				encode = j
-				if cl != "dyn:free:encoder(p0, p1).Encode(dyn:free:formatter(p0, p2))" {
+				if cl != "dyn:free:⟨outer.p0⟩(p0, p1).Encode(dyn:free:⟨outer.p1*⟩(p0, p2))" {
 					probs = append(probs, "the body encoded is not the formatted error response: "+cl)
 				}
 			}
@@ -65,10 +65,10 @@ func r05ErrorEncoder(c *an.Ctx) {
 		if !(enc >= 0 && enc < wh && fm >= 0 && fm < wh && wh < encode) {
 			probs = append(probs, fmt.Sprintf("order encoder(%d), formatter(%d) ≺ WriteHeader(%d) ≺ Encode(%d) violated", enc, fm, wh, encode))
 		}
-		if whArg != "dyn:free:formatter(p0, p2).StatusCode()" {
+		if whArg != "dyn:free:⟨outer.p1*⟩(p0, p2).StatusCode()" {
 			probs = append(probs, "the status written is "+whArg+", not the status of the formatted response")
 		}
-		if len(p.Ret) != 1 || !strings.HasPrefix(p.Ret[0], "dyn:free:encoder(p0, p1).Encode(") {
+		if len(p.Ret) != 1 || !strings.HasPrefix(p.Ret[0], "dyn:free:⟨outer.p0⟩(p0, p1).Encode(") {
 			probs = append(probs, "the encoding error is not returned")
 		}
 		for _, e := range p.Effects {
